@@ -369,3 +369,144 @@ async fn closed_not_handed_to_waiter() {
     drop(WhenReady { connection: Some(c), token: t, pool: pool.as_ref() });
     assert!(rx.try_recv().is_err(), "closed (or upgraded) connection handed out again");
 }
+
+// ======================= bounded stand-ins for A-class functions =======================
+// (functions outside Verus' subset: enum pin-projections, async blocks, closures capturing &mut;
+//  these scenario tests are BOUNDED checks, labelled as such in the evidence, never counted as proved)
+
+fn cfg_bg(continue_after_preemption: bool) -> Config {
+    Config { idle_timeout: None, max_idle_per_host: 5, continue_after_preemption }
+}
+fn h2_connector(t: MockTransport) -> crate::client::conn::connector::Connector<MockTransport, crate::client::conn::protocol::mock::MockProtocol, crate::Body> {
+    t.connector("mock://address".into_request_parts(), HttpProtocol::Http2)
+}
+
+/// A.tokenmap.insert [C06] bound: 2000 distinct keys, each inserted twice
+#[test]
+fn standin_tokenmap_injective_stable() {
+    let mut map: key::TokenMap<key::UriKey> = Default::default();
+    let mut seen = std::collections::HashMap::new();
+    for round in 0..2 {
+        for i in 0..2000u32 {
+            for scheme in [http::uri::Scheme::HTTP, http::uri::Scheme::HTTPS] {
+                let k: key::UriKey = (scheme.clone(), format!("h{}.example:{}", i % 500, 1000 + i / 500).parse::<http::uri::Authority>().unwrap()).into();
+                let t = map.insert(k.clone());
+                assert!(!t.is_zero(), "zero token issued");
+                if round == 0 {
+                    assert!(seen.insert(t, k).is_none(), "one token issued for two different origins");
+                } else {
+                    assert_eq!(seen.get(&t), Some(&k), "token of an origin changed or now names another origin");
+                }
+            }
+        }
+    }
+}
+
+/// A.cdrop.delayed_keeps_marker [C04]: cancelling an in-flight HTTP/2 request whose dial continues in the
+/// background must not make the next request dial
+#[tokio::test]
+async fn standin_cdrop_delayed_keeps_marker() {
+    let pool = Pool::new(cfg_bg(true));
+    let key = example_key();
+    let (tx, rx) = tokio::sync::oneshot::channel::<MockStream>();
+    let mut a = Box::pin(pool.checkout(key.clone(), true, h2_connector(MockTransport::channel(rx))));
+    assert!(futures_util::poll!(&mut a).is_pending());
+    let token = a.token();
+    drop(a);
+    assert!(pool.inner.lock().connecting.contains(&token),
+        "in-flight marker cleared although the cancelled request's dial continues in the background");
+    let mut b = Box::pin(pool.checkout(key.clone(), true, h2_connector(MockTransport::reusable())));
+    assert!(futures_util::poll!(&mut b).is_pending(), "second HTTP/2 request dialed instead of waiting for the attempt in flight");
+    let s = MockStream::reusable();
+    tx.send(s).ok();
+    let b = tokio::time::timeout(Duration::from_secs(2), b).await.expect("waiting request never resolved").unwrap();
+    drop(b);
+}
+
+/// A.cdrop.failed_clears_marker [C03]: after a failed (foreground or background) HTTP/2 attempt the origin is
+/// usable again: the marker is gone and a fresh request completes
+#[tokio::test]
+async fn standin_cdrop_failed_attempt_clears_marker() {
+    for bg in [false, true] {
+        let pool = Pool::new(cfg_bg(bg));
+        let key = example_key();
+        let (tx, rx) = tokio::sync::oneshot::channel::<MockStream>();
+        let mut a = Box::pin(pool.checkout(key.clone(), true, h2_connector(MockTransport::channel(rx))));
+        assert!(futures_util::poll!(&mut a).is_pending());
+        let token = a.token();
+        if bg {
+            drop(a); // continues in the background
+            drop(tx); // ... and fails there
+            for _ in 0..10 { tokio::task::yield_now().await; }
+        } else {
+            drop(tx);
+            assert!(matches!(futures_util::poll!(&mut a), std::task::Poll::Ready(Err(_))));
+            drop(a);
+        }
+        assert!(!pool.inner.lock().connecting.contains(&token), "stale in-flight marker after a failed attempt (background={bg})");
+        let c = tokio::time::timeout(Duration::from_secs(2), pool.checkout(key.clone(), true, h2_connector(MockTransport::reusable()))).await;
+        assert!(matches!(c, Ok(Ok(_))), "request after a failed attempt did not complete (background={bg})");
+    }
+}
+
+/// A.cdrop.cancel_clears_marker [C03]: cancelling a dialing request (no background continuation) never blocks later ones
+#[tokio::test]
+async fn standin_cdrop_cancel_clears_marker() {
+    let pool = Pool::new(cfg_bg(false));
+    let key = example_key();
+    let (_tx, rx) = tokio::sync::oneshot::channel::<MockStream>();
+    let mut a = Box::pin(pool.checkout(key.clone(), true, h2_connector(MockTransport::channel(rx))));
+    assert!(futures_util::poll!(&mut a).is_pending());
+    let token = a.token();
+    drop(a);
+    assert!(!pool.inner.lock().connecting.contains(&token), "marker left behind by a cancelled request");
+    let c = tokio::time::timeout(Duration::from_secs(2), pool.checkout(key.clone(), true, h2_connector(MockTransport::reusable()))).await;
+    assert!(matches!(c, Ok(Ok(_))), "request after a cancelled one did not complete");
+}
+
+/// A.cdrop.owner_only [C04] (F5): cancelling a request that merely WAITS for another request's attempt must not
+/// clear that attempt's marker
+#[tokio::test]
+async fn standin_cdrop_owner_only() {
+    let pool = Pool::new(cfg_bg(false));
+    let key = example_key();
+    let (_tx, rx) = tokio::sync::oneshot::channel::<MockStream>();
+    let mut dialer = Box::pin(pool.checkout(key.clone(), true, h2_connector(MockTransport::channel(rx))));
+    assert!(futures_util::poll!(&mut dialer).is_pending());
+    let token = dialer.token();
+    let waiter = pool.checkout(key.clone(), true, h2_connector(MockTransport::reusable()));
+    drop(waiter);
+    assert!(pool.inner.lock().connecting.contains(&token),
+        "in-flight marker of a live attempt cleared by cancelling a request that only waited for it");
+}
+
+/// A.checkout.poll.preempt [C14]: a waiting request takes a connection released before its first poll; its own dial
+/// completes in the background and ends up in the pool (continue_after_preemption) or leaves nothing behind
+#[tokio::test]
+async fn standin_preempted_dial() {
+    for bg in [true, false] {
+        let pool = Pool::new(cfg_bg(bg));
+        let key = example_key();
+        let (tx, rx) = tokio::sync::oneshot::channel::<MockStream>();
+        let a = pool.checkout(key.clone(), false,
+            MockTransport::channel(rx).connector("mock://address".into_request_parts(), HttpProtocol::Http1));
+        let token = a.token();
+        let released = MockSender::single();
+        let rid = released.id();
+        pool.inner.lock().push(token, released, pool.as_ref());
+        let got = tokio::time::timeout(Duration::from_secs(2), a).await.expect("waiting request not served by the released connection").unwrap();
+        assert_eq!(got.id(), rid, "request was not served by the connection released in the meantime");
+        let before = pool.inner.lock().idle.get(&token).map(|l| l.len()).unwrap_or(0);
+        let sent = tx.send(MockStream::single()).is_ok();
+        for _ in 0..20 { tokio::task::yield_now().await; }
+        let after = pool.inner.lock().idle.get(&token).map(|l| l.len()).unwrap_or(0);
+        if bg {
+            assert!(sent, "abandoned dial was dropped although continue_after_preemption is on");
+            assert_eq!(after, before + 1, "pre-empted dial did not end up in the pool");
+        } else {
+            assert_eq!(after, before, "dropped dial left something behind");
+            assert!(!pool.inner.lock().connecting.contains(&token));
+        }
+        drop(got);
+    }
+}
